@@ -22,8 +22,10 @@ Proof.
     match type of H with context [dev_recv ?a ?b ?c ?d] => destruct (dev_recv a b c d) as [s1 dv] eqn:Ed end.
     apply dev_recv_quiet in Ed.
     destruct dv as [b| |b|]; [destruct b as [|x b]| | |]; try (inversion H; subst; solve [qsolve]).
-    match type of H with context [next_tremain ?a1 ?a2 ?a3] => destruct (next_tremain a1 a2 a3) end; [|inversion H; subst; qsolve].
-    apply IH in H. qsolve.
+    match type of H with context [deadline ?a0 ?a1 ?a2 ?a3] => destruct (deadline a0 a1 a2 a3) end.
+    + apply IH in H. qsolve.
+    + destruct (late_read (cpol c) && _); inversion H; subst; qsolve.
+    + apply IH in H. qsolve.
 Qed.
 
 Lemma ru_loop_quiet c term : forall fuel tmo ts tr s s' r,
@@ -36,9 +38,11 @@ Proof.
     apply dev_recv_quiet in Ed.
     destruct dv as [b| |b|]; [destruct b as [|x b]| | |]; try (inversion H; subst; solve [qsolve]).
     destruct (cut_term term (set_buf s1 (buf s1 ++ x :: b))) as [[sc rc]|] eqn:Ec.
-    + inversion H; subst. apply cut_term_Some in Ec as (bb & rest & _ & _ & _ & ->). qsolve.
-    + match type of H with context [next_tremain ?a1 ?a2 ?a3] => destruct (next_tremain a1 a2 a3) end; [|inversion H; subst; qsolve].
-      apply IH in H. qsolve.
+    + apply cut_term_Some in Ec as (bb & rest & _ & _ & _ & ->).
+      match type of H with context [deadline ?a0 ?a1 ?a2 ?a3] => destruct (deadline a0 a1 a2 a3) end;
+        try destruct (late_ru (cpol c)); inversion H; subst; qsolve.
+    + match type of H with context [deadline ?a0 ?a1 ?a2 ?a3] => destruct (deadline a0 a1 a2 a3) end;
+        [apply IH in H; qsolve | inversion H; subst; qsolve | apply IH in H; qsolve].
 Qed.
 
 Lemma discard_loop_quiet c : forall fuel s acc s' r d,
@@ -49,6 +53,7 @@ Proof.
   - match type of H with context [dev_recv ?a ?b ?c ?d] => destruct (dev_recv a b c d) as [s1 dv] eqn:Ed end.
     apply dev_recv_quiet in Ed.
     destruct dv as [b| |b|]; [destruct b as [|x b]| | |]; try (inversion H; subst; solve [qsolve]).
+    destruct (disc_once (cpol c)); [inversion H; subst; qsolve|].
     apply IH in H. qsolve.
 Qed.
 
@@ -58,33 +63,37 @@ Proof. destruct (ser_arrive_spec s) as (_ & _ & Hd & _). qsolve. Qed.
 Lemma ser_in_waiting_quiet s s' w : ser_in_waiting s = (s', w) -> quiet s s'.
 Proof. unfold ser_in_waiting. intros [= <- <-]. pose proof (ser_arrive_quiet s). qsolve. Qed.
 
-Lemma ser_read_quiet k s s' b sil : ser_read k s = (s', b, sil) -> quiet s s'.
+Lemma ser_read_quiet tk k s s' b sil : ser_read tk k s = (s', b, sil) -> quiet s s'.
 Proof.
   unfold ser_read. pose proof (ser_arrive_quiet s).
   destruct (match orc s with [] => (len (pend s) <? k)%N | _ :: _ => false end); intros [= <- <- <-]; qsolve.
 Qed.
 
-Lemma ser_read_loop_quiet : forall fuel n tmo ts s s' r,
-  ser_read_loop fuel n tmo ts s = (s', r) -> quiet s s'.
+Lemma ser_read_loop_quiet sc : forall fuel n tmo ts s s' r,
+  ser_read_loop sc fuel n tmo ts s = (s', r) -> quiet s s'.
 Proof.
   induction fuel as [|f IH]; intros n tmo ts s s' r H; cbn [ser_read_loop] in H.
   - inversion H; qsolve.
-  - destruct (ser_read (n - len (buf s)) s) as [[s1 b] sil] eqn:Er. apply ser_read_quiet in Er.
-    destruct (n <=? len (buf (set_buf s1 (buf s1 ++ b))))%N; [inversion H; subst; qsolve|].
-    destruct tmo as [t|].
-    + destruct (ts + t - clk (set_buf s1 (buf s1 ++ b)) <=? 0)%Z; [inversion H; subst; qsolve|].
-      apply IH in H. qsolve.
+  - destruct (ser_read (tick sc) (n - len (buf s)) s) as [[s1 b] sil] eqn:Er. apply ser_read_quiet in Er.
+    destruct (n <=? len (buf (set_buf s1 (buf s1 ++ b))))%N.
+    { destruct (deadline _ tmo ts (clk (set_buf s1 (buf s1 ++ b))));
+        try destruct (late_read (spol sc)); inversion H; subst; qsolve. }
+    destruct (deadline _ tmo ts (clk (set_buf s1 (buf s1 ++ b)))).
     + destruct sil; [inversion H; subst; qsolve|]. apply IH in H. qsolve.
+    + inversion H; subst; qsolve.
+    + apply IH in H. qsolve.
 Qed.
 
-Lemma ser_ru_loop_quiet term : forall fuel tmo ts tr s s' r,
-  ser_ru_loop fuel term tmo ts tr s = (s', r) -> quiet s s'.
+Lemma ser_ru_loop_quiet sc term : forall fuel tmo ts tr s s' r,
+  ser_ru_loop sc fuel term tmo ts tr s = (s', r) -> quiet s s'.
 Proof.
   induction fuel as [|f IH]; intros tmo ts tr s s' r H; cbn [ser_ru_loop] in H.
   - inversion H; qsolve.
-  - destruct (tmo_nonpos tr); [inversion H; subst; qsolve|].
-    destruct (ser_read 1 s) as [[s1 b] sil] eqn:Er. apply ser_read_quiet in Er.
-    destruct (endswith (buf (set_buf s1 (buf s1 ++ b))) term); [inversion H; subst; qsolve|].
+  - destruct (tr_passed _ tr); [inversion H; subst; qsolve|].
+    destruct (ser_read (tick sc) 1 s) as [[s1 b] sil] eqn:Er. apply ser_read_quiet in Er.
+    destruct (endswith (buf (set_buf s1 (buf s1 ++ b))) term).
+    { destruct (deadline _ tmo ts (clk (set_buf s1 (buf s1 ++ b))));
+        try destruct (late_ru (spol sc)); inversion H; subst; qsolve. }
     destruct tmo as [t|].
     + apply IH in H. qsolve.
     + destruct sil; [inversion H; subst; qsolve|]. apply IH in H. qsolve.
@@ -95,14 +104,14 @@ Proof.
   unfold sock_read. destruct (is_open s); [apply read_loop_quiet | intros [= <- <-]; qsolve].
 Qed.
 
-Lemma ser_read_op_quiet n tmo s s' r : ser_read_op n tmo s = (s', r) -> quiet s s'.
+Lemma ser_read_op_quiet sc n tmo s s' r : ser_read_op sc n tmo s = (s', r) -> quiet s s'.
 Proof.
   unfold ser_read_op. intros H. destruct (negb (is_open s)); [inversion H; subst; qsolve|].
   destruct (n <=? len (buf s))%N; [inversion H; subst; qsolve|].
   destruct (tmo_nonpos tmo); [|apply ser_read_loop_quiet in H; exact H].
   destruct (ser_in_waiting s) as [s1 w] eqn:Ew. apply ser_in_waiting_quiet in Ew.
   destruct (n - len (buf s) <=? w)%N; [|inversion H; subst; qsolve].
-  destruct (ser_read (n - len (buf s)) s1) as [[s2 b] sil] eqn:Er. apply ser_read_quiet in Er.
+  destruct (ser_read (tick sc) (n - len (buf s)) s1) as [[s2 b] sil] eqn:Er. apply ser_read_quiet in Er.
   destruct (len (buf (set_buf s2 (buf s2 ++ b))) <? n)%N; inversion H; subst; qsolve.
 Qed.
 
@@ -114,11 +123,12 @@ Lemma step_sent k s o s' x :
   step k s o = (s', x) -> sentl (dlog s') = wrote o (o_res x) ++ sentl (dlog s).
 Proof.
   intros H. apply step_unfold in H as [H _].
-  destruct k as [c|], o as [| |n t|tm t|n t| |wd]; cbn [step_raw] in H; unfold nodrop in H; cbn [wrote app].
+  destruct k as [c|sc], o as [| |n t|tm t|n t| |wd]; cbn [step_raw] in H; unfold nodrop in H; cbn [wrote app].
   - unfold sock_open in H. destruct (is_open s); inversion H; subst; qsolve.
   - unfold do_close in H. destruct (is_open s); inversion H; subst; qsolve.
   - destruct (sock_read c n t s) as [s1 r1] eqn:E. inversion H; subst. apply sock_read_quiet in E. exact E.
-  - unfold sock_read_until in H. destruct (cut_term tm s) as [[sc rc]|] eqn:Ec.
+  - unfold sock_read_until in H. destruct (ru_chk_first (cpol c) && negb (is_open s)); [inversion H; subst; qsolve|].
+    destruct (cut_term tm s) as [[sc rc]|] eqn:Ec.
     + inversion H; subst. apply cut_term_Some in Ec as (bb & rest & _ & _ & _ & ->). qsolve.
     + destruct (is_open s).
       * destruct (ru_loop c (fuel_of s) tm t (clk s) t s) as [s1 r1] eqn:E. inversion H; subst.
@@ -133,22 +143,25 @@ Proof.
   - unfold sock_write in H. destruct (is_open s); inversion H; subst; qsolve.
   - unfold ser_open in H. destruct (is_open s); inversion H; subst; qsolve.
   - unfold do_close in H. destruct (is_open s); inversion H; subst; qsolve.
-  - destruct (ser_read_op n t s) as [s1 r1] eqn:E. inversion H; subst. apply ser_read_op_quiet in E. exact E.
-  - unfold ser_read_until in H. destruct (negb (is_open s)); [inversion H; subst; qsolve|].
+  - destruct (ser_read_op sc n t s) as [s1 r1] eqn:E. inversion H; subst. apply ser_read_op_quiet in E. exact E.
+  - unfold ser_read_until in H. destruct (negb (is_open s)).
+    { destruct (ru_chk_first (spol sc)); [inversion H; subst; qsolve|].
+      destruct (cut_term tm s) as [[sc0 rc]|] eqn:Ec; [|inversion H; subst; qsolve].
+      inversion H; subst sc0 rc. apply cut_term_Some in Ec as (bb & rest & _ & _ & _ & ->). qsolve. }
     set (s1 := match find tm (buf s) with
                | Some _ => s
                | None => let '(sa, w) := ser_in_waiting s in
-                         let '(sb, b, _) := ser_read w sa in set_buf sb (buf sb ++ b)
+                         let '(sb, b, _) := ser_read (tick sc) w sa in set_buf sb (buf sb ++ b)
                end) in *.
     assert (Q1 : quiet s s1).
     { subst s1. destruct (find tm (buf s)); [qsolve|].
       destruct (ser_in_waiting s) as [sa w] eqn:Ew. apply ser_in_waiting_quiet in Ew.
-      destruct (ser_read w sa) as [[sb b] sil] eqn:Er. apply ser_read_quiet in Er. qsolve. }
-    destruct (cut_term tm s1) as [[sc rc]|] eqn:Ec.
-    + inversion H; subst sc rc. apply cut_term_Some in Ec as (bb & rest & _ & _ & _ & E). rewrite E in *. qsolve.
-    + destruct (ser_ru_loop (ser_fuel t s1) tm t (clk s1) t s1) as [s2 r2] eqn:E. inversion H; subst.
+      destruct (ser_read (tick sc) w sa) as [[sb b] sil] eqn:Er. apply ser_read_quiet in Er. qsolve. }
+    destruct (cut_term tm s1) as [[sc1 rc]|] eqn:Ec.
+    + inversion H; subst sc1 rc. apply cut_term_Some in Ec as (bb & rest & _ & _ & _ & E). rewrite E in *. qsolve.
+    + destruct (ser_ru_loop sc (ser_fuel t s1) tm t (clk s1) t s1) as [s2 r2] eqn:E. inversion H; subst.
       apply ser_ru_loop_quiet in E. qsolve.
-  - unfold ser_rut in H. destruct (ser_read_op n t s) as [s1 r1] eqn:E. apply ser_read_op_quiet in E.
+  - unfold ser_rut in H. destruct (ser_read_op sc n t s) as [s1 r1] eqn:E. apply ser_read_op_quiet in E.
     destruct r1; inversion H; subst; qsolve.
   - unfold ser_discard in H. pose proof (ser_arrive_quiet s).
     destruct (is_open s); inversion H; subst; qsolve.
@@ -184,14 +197,14 @@ Proof. intros H. apply run_sent in H. exact H. Qed.
 Lemma write_open k s d s' x :
   is_open s = true -> step k s (OpWrite d) = (s', x) ->
   o_res x = RNone /\ o_dropped x = [] /\
-  o_calls x = match k with Sock _ => [DSetTmo None; DSend d] | Serial => [DSend d] end /\
+  o_calls x = [DSend d] /\
   buf s' = buf s /\ pend s' = pend s /\ orc s' = orc s /\ clk s' = clk s /\ is_open s' = true.
 Proof.
   intros O H. apply step_unfold in H as [H Hc]. rewrite Hc.
   destruct k; cbn [step_raw] in H; unfold nodrop, sock_write, ser_write in H; rewrite O in H;
     cbn [fst snd] in H; inversion H; subst; sim; repeat split; auto;
     unfold new_calls; sim; cbn [length].
-  - replace (S (S (length (dlog s))) - length (dlog s)) with 2 by lia. reflexivity.
+  - replace (S (length (dlog s)) - length (dlog s)) with 1 by lia. reflexivity.
   - replace (S (length (dlog s)) - length (dlog s)) with 1 by lia. reflexivity.
 Qed.
 
